@@ -121,18 +121,27 @@ func fieldName(i int) string { return fmt.Sprintf("f%d", i) }
 // tableArg wraps an execution node as the physical TABLE argument of a table valued function, with
 // nfields columns named f0..; column timeIdx (if >= 0) is typed Time.
 func tableArg(src execution.Node, nfields, timeIdx int) physical.TableValuedFunctionArgument {
+	return tableArgSchema(src, nfields, []int{timeIdx}, -1)
+}
+
+// tableArgSchema: the columns timeCols are typed Time; schemaTimeField is the TimeField of the source's
+// schema (-1: the source has no event time field of its own; >= 0: it has one, as the output of poll,
+// max_diff_watermark or another tumble does).
+func tableArgSchema(src execution.Node, nfields int, timeCols []int, schemaTimeField int) physical.TableValuedFunctionArgument {
 	fields := make([]physical.SchemaField, nfields)
 	mapping := map[string]string{}
 	for i := range fields {
 		t := octosql.Any
-		if i == timeIdx {
-			t = octosql.Time
+		for _, c := range timeCols {
+			if i == c {
+				t = octosql.Time
+			}
 		}
 		fields[i] = physical.SchemaField{Name: fieldName(i), Type: t}
 		mapping["s."+fieldName(i)] = fieldName(i)
 	}
 	node := physical.Node{
-		Schema:   physical.NewSchema(fields, -1),
+		Schema:   physical.NewSchema(fields, schemaTimeField),
 		NodeType: physical.NodeTypeDatasource,
 		Datasource: &physical.Datasource{
 			Name: "s", Alias: "s", DatasourceImplementation: fixedSource{src}, VariableMapping: mapping,
@@ -229,6 +238,21 @@ func Tumble(src execution.Node, length, offset time.Duration, idx, nfields int) 
 		"time_field":    descArg(fieldName(idx)),
 		"offset":        constArg(octosql.NewDuration(offset), octosql.Duration),
 	})
+}
+
+// TumbleOverTimedSource builds tumble over a source whose schema already has an event time field
+// (column schemaTimeField).  explicit >= 0: time_field => DESCRIPTOR(f<explicit>) is passed and must win;
+// explicit < 0: no time_field argument, the source's own time field is used.
+func TumbleOverTimedSource(src execution.Node, length, offset time.Duration, nfields int, timeCols []int, schemaTimeField, explicit int) (execution.Node, error) {
+	args := map[string]physical.TableValuedFunctionArgument{
+		"source":        tableArgSchema(src, nfields, timeCols, schemaTimeField),
+		"window_length": constArg(octosql.NewDuration(length), octosql.Duration),
+		"offset":        constArg(octosql.NewDuration(offset), octosql.Duration),
+	}
+	if explicit >= 0 {
+		args["time_field"] = descArg(fieldName(explicit))
+	}
+	return tvf.Tumble.Descriptors[0].Materialize(context.Background(), env, args)
 }
 
 // Range builds range(start, end).
